@@ -29,7 +29,7 @@
 (* schema and response schema.                                              *)
 (*                                                                          *)
 (* Outside the universe (the statement leaves them open or they are not     *)
-(* convertible): collectionFormat, allowEmptyValue, schemes without host,   *)
+(* convertible): collectionFormat, schemes without host,                    *)
 (* form parameters without form `consumes`, external references, examples.  *)
 (***************************************************************************)
 EXTENDS DocJson
@@ -44,7 +44,7 @@ U(n, f) == [n |-> n, f |-> f]
 StrU == << U("minLength", KV("minLength", I(1))), U("maxLength", KV("maxLength", I(5))),
            U("pattern", KV("pattern", S("^a"))), U("enum", KV("enum", A(<<S("ab"), S("b")>>))),
            U("default", KV("default", S("ab"))), U("format", KV("format", S("password"))),
-           U("binary", KV("format", S("binary"))) >>
+           U("binary", KV("format", S("binary"))), U("allowEmptyValue", KV("allowEmptyValue", B(TRUE))) >>
 IntU == << U("minimum", KV("minimum", I(1))), U("maximum", KV("maximum", I(9))),
            U("exclusiveMinimum", KV("minimum", I(1)) @@ KV("exclusiveMinimum", B(TRUE))),
            U("exclusiveMaximum", KV("maximum", I(9)) @@ KV("exclusiveMaximum", B(TRUE))),
